@@ -244,7 +244,10 @@ func genObjElem(r *vx.Rng) elem {
 		}
 		raw := append(binary.LittleEndian.AppendUint32(nil, plen), payload...)
 		want := ""
-		if plen == uint32(len(payload)) && ty <= 2 && len(payload) > 0 {
+		// a payload of the type code alone (4 bytes) is the known finding C01 payload-type-only-at-end: ReadPayload wants
+		// MinPayloadByteSize = 5 bytes behind the length field, so it is read only when something follows it. No
+		// round-trip expectation for it (the directed case of the stream part reproduces it through WritePayload).
+		if plen == uint32(len(payload)) && ty <= 2 && len(payload) > 4 {
 			want = joinT("OBytes", bytesT(payload))
 		} else if plen == 0 {
 			want = "ONone"
@@ -343,6 +346,38 @@ func (g *gen) directedHeaders() {
 		e := genElem(r, false)
 		if b, err, p := serialize([]elem{e}); err == nil && !p && len(b) <= 24 && !e.zeroSz {
 			g.allTruncations([]elem{e}, "truncated-every-prefix")
+		}
+	}
+}
+
+const sigPayloadTypeOnly = "payload-type-only-at-end"
+
+// directedPayloadFinding: WritePayload accepts a Serializable that encodes to its 4-byte type code alone; ReadPayload
+// rejects exactly that when it is the last thing in the input (fewer than MinPayloadByteSize = 5 bytes behind the length
+// field), and reads it when anything follows. Known finding (C01); any other outcome of the pair is a failure.
+func (g *gen) directedPayloadFinding() {
+	hp := hSel{hdr: 4, k1: 0, k2: 2}
+	obj := &hObj{hdr: 4, k: 0, raw: []byte{1, 0, 0, 0}}
+	ser := serializer.NewSerializer()
+	ser.WritePayload(obj, serializer.DeSeriModePerformValidation, nil, nil, idErr)
+	written, err := ser.Serialize()
+	if err != nil || string(written) != string([]byte{4, 0, 0, 0, 1, 0, 0, 0}) {
+		g.fail(map[string]any{"sig": "payload-write", "bytes": hexs(written), "err": fmt.Sprint(err)})
+		return
+	}
+	for _, tail := range [][]byte{nil, {9}} {
+		in := append(exact(written), tail...)
+		prog := []elem{payloadElem(hp, in, "")}
+		o := runDes(in, prog)
+		_, dops, _, _ := progTerms(prog)
+		g.add(desCaseT(in, dops, o), map[string]any{"what": "directed-payload-type-only", "input": hexs(in), "ops": dops}, "desser|payload-type-only", true)
+		okRead := !o.panicked && o.err == nil && o.off == len(written) && len(o.outs) == 1 && o.outs[0] == joinT("OBytes", bytesT(written[4:]))
+		switch {
+		case len(tail) == 0 && !o.panicked && classify(o.err) == "ENotEnough":
+			g.st.Known = append(g.st.Known, sigPayloadTypeOnly)
+		case okRead: // followed by more data (or, should the library change, also at the end): round trip
+		default:
+			g.fail(map[string]any{"sig": "serdes-roundtrip", "what": "WritePayload/ReadPayload of a type-code-only payload", "bytes": hexs(in), "got": o.outs, "err": fmt.Sprint(o.err), "panicked": o.panicked})
 		}
 	}
 }
